@@ -59,7 +59,8 @@ def make_entries(n_slots, scheme, span_min, f0_str, rphase0_str, ncoeff, spellin
                  obs="ao"):
     """Entries on a slot grid: spacing by scheme in {'touch', 'overlap', 'gap0.5ms', 'gap10min'}."""
     spacing = {"touch": F(span_min, 1440), "overlap": F(span_min, 2880), "gap0.5ms": F(span_min, 1440) + F(5, 10 ** 4) / 86400,
-               "gap10min": F(span_min + 10, 1440)}[scheme]
+               "gap10min": F(span_min + 10, 1440), "gap60s": F(span_min + 1, 1440),
+               "gap2ms": F(span_min, 1440) + F(2, 10 ** 3) / 86400}[scheme]
     base = [-1.73185794610246813e-07, 2.74674525676052372e+00, 1.04238089662183955e-04, -5.85475369329423112e-08,
             -1.77387501594704725e-10, 9.44547001748998693e-14, 3.72147359481613728e-15, -1.39825429606617037e-16,
             -7.90837245186858380e-19, 9.28325106718060064e-20, 9.53148372636567222e-25, -1.81703238034500704e-23]
